@@ -20,7 +20,7 @@ func checkC20(c *Ctx) {
 	r.Rule("C20.Y1-handoff", "NewPool holds Pool.lock(R) at the go statement and does not release it", 1)
 	r.Rule("C20.Y2-reread", "watcher loop: index from 0 step 1, exit only when index >= len(p.pool) re-read inside the loop", 1)
 	r.Rule("C20.Y3-waits", "every wait in the watcher selects on the member channel pool[i] and on Pool.closed; cancel of the pool context is deferred on every exit", 2)
-	r.Rule("C20.Y4-add", "Add appends only on the default branch of select{<-p.Done(), <-p.closed}", 1)
+	r.Rule("C20.Y4-add", "Add appends only on the default branch of select{<-p.Done(), <-p.closed}, under the write lock, and always does so on that branch", 2)
 	r.Rule("C20.Y6-initial", "NewPool considers every initial context: the loop over ctx is left only by its index test, and an iteration that does not append has seen that context done", 1)
 	r.Rule("C20.Y7-cancel-clears", "every return of Cancel has cleared Pool.pool or seen it nil (Size is zero after Cancel)", 1)
 	r.Rule("C20.Y5-cancel", "close(Pool.closed) only under pool != nil, with pool cleared in the same block", 1)
@@ -124,6 +124,46 @@ func checkC20(c *Ctx) {
 	}
 	if nStores == 0 {
 		r.Violation("C20.Y4-add", "context.Pool.Add store to pool", p.Pos(add.Pos()), "Add no longer appends the offered context to the pool")
+	}
+	// every return of Add was reached through one of the 'pool ended' cases or after the append:
+	// a context offered to a live pool must become a member whatever it is
+	{
+		const (
+			viaCase = 1
+			app     = 2
+		)
+		ffa := &FlagFlow{Fn: add, Must: false, Entry: 1 << 0,
+			Transfer: func(in ssa.Instruction, st uint64) uint64 {
+				if s, ok := in.(*ssa.Store); ok {
+					if fa, ok := s.Addr.(*ssa.FieldAddr); ok && fieldIDOfAddr(fa) == poolField {
+						if call, ok := s.Val.(*ssa.Call); ok && builtinName(call) == "append" {
+							return mapStates(st, func(x int) int { return x | app })
+						}
+					}
+				}
+				return st
+			},
+			EdgeTransfer: func(from, to *ssa.BasicBlock, st uint64) uint64 {
+				if si, ks := selectEdgeCases(from, to); si != nil {
+					for _, k := range ks {
+						if k < len(si.Cases) && si.Cases[k].Dir == types.RecvOnly && (si.Cases[k].Chan == closedCh || si.Cases[k].Chan == "done:context.Pool.Context") {
+							return mapStates(st, func(x int) int { return x | viaCase })
+						}
+					}
+				}
+				return st
+			}}
+		ffa.Run()
+		okAll := true
+		where := ""
+		ffa.AtReturns(func(ret *ssa.Return, st uint64) {
+			if st&(1<<0) != 0 {
+				okAll = false
+				where = p.Pos(ret.Pos())
+			}
+		})
+		r.Check(okAll, "C20.Y4-add", "context.Pool.Add every live offer is tracked", p.Pos(add.Pos()), "every return of Add either saw the pool ended or appended the context",
+			"Add can return (at "+where+") without having appended the offered context although neither p.Done() nor p.closed had fired: a member added to a live pool is silently not tracked (e.g. contexts whose Done() is nil), so the pool can end while that member is still live")
 	}
 
 	// Y5: close(closed)
